@@ -76,9 +76,13 @@ def checkedShl (l r : Int) : Except String Int :=
     if bitLen l + r.toNat ≥ Gen.BIGINT_MAX_BITS then .error outOfRange
     else .ok (l * (2 ^ r.toNat : Nat))
   else .error outOfRange
+/-- `l >> n`, computed without the power of two when the shift is at least as long as the number (the value is then
+    0 or -1): the same number as `l >>> n` (`Casm.shrInt_eq`), but executable for shifts near 2^64 -/
+def shrInt (l : Int) (n : Nat) : Int := if bitLen l ≤ n then (if l < 0 then -1 else 0) else l >>> n
+
 def checkedShr (l r : Int) : Except String Int :=
   match toUsize r with
-  | some n => .ok (l >>> n)
+  | some n => .ok (shrInt l n)
   | none => .error outOfRange
 
 /-- `checked_slice(left, right)` -/
